@@ -74,7 +74,8 @@ inline std::atomic<uint32_t> g_delay{0}; // mode F delay intensity (0 = none)
 inline std::function<void(int, void const*, uint64_t)> g_inject; // mode S: called on the backend thread at every hook
 inline thread_local uint32_t tl_stall_us = 0;                      // mode F: sleep this long at FE_TS_TAKEN of the next statement
 inline thread_local Rng* tl_rng = nullptr;
-inline thread_local uint64_t tl_block_retries = 0, tl_block_idle_mark = 0, tl_wait_hits = 0, tl_wait_idle_mark = 0;
+inline thread_local uint64_t tl_block_retries = 0, tl_block_idle_mark = 0, tl_block_last_idle = 0, tl_block_adv = 0;
+inline thread_local uint64_t tl_wait_hits = 0, tl_wait_idle_mark = 0, tl_wait_last_idle = 0, tl_wait_adv = 0;
 inline thread_local bool tl_control_op = false; // mode S: the current operation is a control request (flush, backtrace, removal)
 
 inline void stat_add(std::string const& k, long long n = 1)
@@ -111,12 +112,18 @@ inline void hook(int p, void const* a, uint64_t b)
   // mode F: random delays at windows that are outside any quill spinlock
   if (p == qv::FE_BLOCKED_RETRY)
   {
-    // progress verdict in logical steps: this producer has retried >= 100 times while the backend reported
-    // "all queues and buffers empty" >= 100 times since the first retry of this call: nothing is ahead of it
-    if (tl_block_retries++ == 0) tl_block_idle_mark = g_idle_cycles.load(std::memory_order_relaxed);
-    else if (tl_block_retries > 100 && g_idle_cycles.load(std::memory_order_relaxed) - tl_block_idle_mark > 100 && tl_block_retries != UINT64_MAX)
+    // progress verdict in logical steps: between two consecutive failed attempts of this call the backend completed an
+    // "all queues and buffers empty" cycle, and that happened at more than 100 distinct retries: nothing is ahead of
+    // this producer and it still gets no room. Counting the retries at which the idle counter ADVANCED (not the total
+    // advance) matters: a thread preempted between its failed attempt and this hook sees the counter jump by thousands
+    // once, and then succeeds (false alarm met under heavy machine load, see DESIGN section 7).
+    uint64_t const idle_now = g_idle_cycles.load(std::memory_order_relaxed);
+    if (tl_block_retries++ == 0) { tl_block_idle_mark = idle_now; tl_block_adv = 0; }
+    else if (idle_now != tl_block_last_idle) ++tl_block_adv;
+    tl_block_last_idle = idle_now;
+    if (tl_block_adv > 100 && tl_block_retries != UINT64_MAX)
     {
-      violation("C09", "blocked-call-never-resumes-with-idle-backend", J{}.unum("retries", tl_block_retries).unum("backend_idle_cycles_since_first_retry", g_idle_cycles.load() - tl_block_idle_mark).unum("encoded_size", b).str("queue", kQueueName).unum("cap", E2E_CAP).str("family", "mode F"));
+      violation("C09", "blocked-call-never-resumes-with-idle-backend", J{}.unum("retries", tl_block_retries).unum("retries_after_which_the_backend_had_idled_again", tl_block_adv).unum("backend_idle_cycles_since_first_retry", g_idle_cycles.load() - tl_block_idle_mark).unum("encoded_size", b).str("queue", kQueueName).unum("cap", E2E_CAP).str("family", "mode F"));
       end_ok();
       fflush(stdout);
       _exit(0);
@@ -125,16 +132,20 @@ inline void hook(int p, void const* a, uint64_t b)
   }
   if (p == qv::FE_FLUSH_WAIT || p == qv::FE_REMOVE_WAIT)
   {
-    // progress verdict in logical steps for the two blocking control calls: the caller has re-checked its flag > 1000
-    // times while the backend reported "all queues and buffers empty" > 1000 times since the wait began. A flush
-    // request still queued keeps the queues non-empty, and an invalidated logger is freed on the first all-empty
-    // cycle, so in a correct library this cannot happen.
-    if (tl_wait_hits++ == 0) tl_wait_idle_mark = g_idle_cycles.load(std::memory_order_relaxed);
-    else if (tl_wait_hits > 1000 && g_idle_cycles.load(std::memory_order_relaxed) - tl_wait_idle_mark > 1000)
+    // progress verdict in logical steps for the two blocking control calls: the caller found its flag unset, and
+    // since its previous look the backend completed an "all queues and buffers empty" cycle - at more than 1000 distinct
+    // looks. A flush request still queued keeps the queues non-empty, and an invalidated logger is freed on the first
+    // all-empty cycle, so in a correct library this happens at most once or twice per call (preemption between the
+    // flag load and this hook); see the comment at FE_BLOCKED_RETRY.
+    uint64_t const idle_now = g_idle_cycles.load(std::memory_order_relaxed);
+    if (tl_wait_hits++ == 0) { tl_wait_idle_mark = idle_now; tl_wait_adv = 0; }
+    else if (idle_now != tl_wait_last_idle) ++tl_wait_adv;
+    tl_wait_last_idle = idle_now;
+    if (tl_wait_adv > 1000)
     {
       bool const flush = p == qv::FE_FLUSH_WAIT;
       violation(flush ? "C06" : "C17", flush ? "flush-never-returns-with-idle-backend" : "remove-logger-blocking-never-returns-with-idle-backend",
-                J{}.unum("wait_loop_iterations", tl_wait_hits).unum("backend_idle_cycles_since_wait_began", g_idle_cycles.load() - tl_wait_idle_mark).str("queue", kQueueName).str("family", "mode F"));
+                J{}.unum("wait_loop_iterations", tl_wait_hits).unum("looks_after_which_the_backend_had_idled_again", tl_wait_adv).unum("backend_idle_cycles_since_wait_began", g_idle_cycles.load() - tl_wait_idle_mark).str("queue", kQueueName).str("family", "mode F"));
       end_ok();
       fflush(stdout);
       _exit(0);
